@@ -130,6 +130,47 @@ def emptyBlock (isObj : Bool) : Block := { isObj := isObj, items := [], cap := 3
 def heapSize (h : Heap) : Nat :=
   (h.map fun | some b => b.items.length + 1 | none => 0).sum
 
+/-! ## list combinators in `Except Err` (the element loops of the C++; recursion on the list, so that the fuel of
+the recursive functions below counts nesting depth only) -/
+
+/-- `for (...) if (!p(x)) return false; return true;` -/
+def allE {α : Type} : List α → (α → Except Err Bool) → Except Err Bool
+  | [], _ => .ok true
+  | x :: xs, p =>
+    match p x with
+    | .error e => .error e
+    | .ok false => .ok false
+    | .ok true => allE xs p
+
+/-- `for (...) if (p(x)) return true; return false;` -/
+def anyE {α : Type} : List α → (α → Except Err Bool) → Except Err Bool
+  | [], _ => .ok false
+  | x :: xs, p =>
+    match p x with
+    | .error e => .error e
+    | .ok true => .ok true
+    | .ok false => anyE xs p
+
+def mapE {α β : Type} : List α → (α → Except Err β) → Except Err (List β)
+  | [], _ => .ok []
+  | x :: xs, g =>
+    match g x with
+    | .error e => .error e
+    | .ok y => match mapE xs g with
+      | .error e => .error e
+      | .ok ys => .ok (y :: ys)
+
+/-- apply `g` to the value of every element in order, threading the heap -/
+def mapHeapE (g : Heap → V → Except Err (Heap × V)) : Heap → List (Bytes × V) → Except Err (Heap × List (Bytes × V))
+  | h, [] => .ok (h, [])
+  | h, (k, x) :: rest =>
+    match g h x with
+    | .error e => .error e
+    | .ok (h1, x') =>
+      match mapHeapE g h1 rest with
+      | .error e => .error e
+      | .ok (h2, rest') => .ok (h2, (k, x') :: rest')
+
 /-! ## copy construction and destruction -/
 
 /-- `Var(const Var&)`: memcpy + `copy(v)`; ARRAY/OBJ share the block (`++rc`), STRING allocates its own bytes -/
@@ -453,8 +494,7 @@ def resolveConstLoc (h : Heap) : Option Loc → V → List Step → Except Err (
 
 /-! ## reachability (guards of the harness: "would make a container contain itself") -/
 
-mutual
-/-- is block `target` reachable from value `v` (including `v` itself)? -/
+/-- is block `target` reachable from value `v` (including `v` itself)?  `fuel` bounds the nesting depth. -/
 def reaches : Nat → Heap → Nat → V → Except Err Bool
   | 0, _, _, _ => .error .fuel
   | f + 1, h, target, v =>
@@ -464,20 +504,10 @@ def reaches : Nat → Heap → Nat → V → Except Err Bool
       if id = target then .ok true
       else match getB h id with
         | .error e => .error e
-        | .ok b => reachesL f h target b.items
-def reachesL : Nat → Heap → Nat → List (Bytes × V) → Except Err Bool
-  | 0, _, _, _ => .error .fuel
-  | _ + 1, _, _, [] => .ok false
-  | f + 1, h, target, kv :: rest =>
-    match reaches f h target kv.2 with
-    | .error e => .error e
-    | .ok true => .ok true
-    | .ok false => reachesL f h target rest
-end
+        | .ok b => anyE b.items (fun kv => reaches f h target kv.2)
 
-/-- recursion bound used by the driver for every traversal: longer than any acyclic chain of blocks and any
-element list -/
-def travFuel (h : Heap) : Nat := 2 * heapSize h + 4
+/-- recursion bound used by the driver for every traversal: longer than any acyclic chain of blocks -/
+def travFuel (h : Heap) : Nat := h.length + 2
 
 /-- the block that holds the Var at `l` (none for a root variable) -/
 def parentOf : Loc → Option Nat
@@ -601,7 +631,6 @@ def extendNewKeys (tgt : List (Bytes × V)) (src : List (Bytes × V)) : Nat :=
 
 /-! ## clone -/
 
-mutual
 /-- `Var clone() const`: a new block (capacity `max(n, 3)`, rc 1) for every array and object below, scalars and
 strings copied.  Net effect of `Var v(*this); v._a->dup(); foreach(x) x = x.clone();` — the transient
 increments/decrements of the shared originals cancel. -/
@@ -614,22 +643,11 @@ def cloneV : Nat → Heap → V → Except Err (Heap × V)
       match getB h id with
       | .error e => .error e
       | .ok b =>
-        match cloneL f h b.items with
+        match mapHeapE (cloneV f) h b.items with
         | .error e => .error e
         | .ok (h1, items') =>
           let (h2, id') := allocB h1 { isObj := b.isObj, items := items', cap := max items'.length 3, rc := 1 }
           .ok (h2, mkHandle b.isObj id')
-def cloneL : Nat → Heap → List (Bytes × V) → Except Err (Heap × List (Bytes × V))
-  | 0, _, _ => .error .fuel
-  | _ + 1, h, [] => .ok (h, [])
-  | f + 1, h, (k, x) :: rest =>
-    match cloneV f h x with
-    | .error e => .error e
-    | .ok (h1, x') =>
-      match cloneL f h1 rest with
-      | .error e => .error e
-      | .ok (h2, rest') => .ok (h2, (k, x') :: rest')
-end
 
 /-! ## comparison -/
 
@@ -640,7 +658,6 @@ def numOf : V → Option Dy
   | .flt d => some d
   | _ => none
 
-mutual
 /-- `bool Var::operator==(const Var& other) const`, branch by branch -/
 def eqV : Nat → Heap → V → V → Except Err Bool
   | 0, _, _, _ => .error .fuel
@@ -660,46 +677,24 @@ def eqV : Nat → Heap → V → V → Except Err Bool
       match getB h a, getB h b with
       | .ok ba, .ok bb =>
         if ba.items.length ≠ bb.items.length then .ok false
-        else eqArr f h bb.items ba.items              -- `b._a[i] != _a[i]`: other's element on the left
+        -- `if (b._a[i] != _a[i]) return false;`: the other array's element is the left operand
+        else allE (bb.items.zip ba.items) (fun p => eqV f h p.1.2 p.2.2)
       | .error e, _ => .error e
       | _, .error e => .error e
     | .obj a, .obj b =>
       match getB h a, getB h b with
       | .ok ba, .ok bb =>
         if ba.items.length ≠ bb.items.length then .ok false
-        else eqObj f h ba.items bb.items
+        -- `if (a[i].key != b.a[i].key || a[i].value != b.a[i].value) return false;`
+        else allE (ba.items.zip bb.items) (fun p =>
+          if p.1.1 ≠ p.2.1 then .ok false else eqV f h p.1.2 p.2.2)
       | .error e, _ => .error e
       | _, .error e => .error e
     | _, _ => .ok false
-def eqArr : Nat → Heap → List (Bytes × V) → List (Bytes × V) → Except Err Bool
-  | 0, _, _, _ => .error .fuel
-  | _ + 1, _, [], _ => .ok true
-  | _ + 1, _, _ :: _, [] => .ok true
-  | f + 1, h, x :: xs, y :: ys =>
-    match eqV f h x.2 y.2 with
-    | .error e => .error e
-    | .ok false => .ok false
-    | .ok true => eqArr f h xs ys
-def eqObj : Nat → Heap → List (Bytes × V) → List (Bytes × V) → Except Err Bool
-  | 0, _, _, _ => .error .fuel
-  | _ + 1, _, [], _ => .ok true
-  | _ + 1, _, _ :: _, [] => .ok true
-  | f + 1, h, x :: xs, y :: ys =>
-    if x.1 ≠ y.1 then .ok false
-    else match eqV f h x.2 y.2 with
-      | .error e => .error e
-      | .ok false => .ok false
-      | .ok true => eqObj f h xs ys
-end
 
 /-- `bool contains(const Var& x) const`: `Array::indexOf`: first `i` with `_a[i] == x` -/
-def containsL : Nat → Heap → List (Bytes × V) → V → Except Err Bool
-  | _, _, [], _ => .ok false
-  | f, h, kv :: rest, x =>
-    match eqV f h kv.2 x with
-    | .error e => .error e
-    | .ok true => .ok true
-    | .ok false => containsL f h rest x
+def containsL (f : Nat) (h : Heap) (items : List (Bytes × V)) (x : V) : Except Err Bool :=
+  anyE items (fun kv => eqV f h kv.2 x)
 
 /-! ## accessors -/
 
@@ -808,8 +803,14 @@ def joinBytes (sep : Bytes) : List Bytes → Bytes
   | [x] => x
   | x :: rest => x ++ sep ++ joinBytes sep rest
 
-mutual
-/-- `String Var::toString() const` -/
+/-- `operator String()` of a string Var -/
+def strOf : V → Option Bytes
+  | .str s => some s
+  | .sstr s => some s
+  | _ => none
+
+/-- `String Var::toString() const`; elements of arrays/objects are converted with `operator String()`: strings as
+they are, everything else through `toString()` -/
 def toStr : Nat → Heap → V → Except Err Bytes
   | 0, _, _ => .error .fuel
   | f + 1, h, v =>
@@ -825,25 +826,192 @@ def toStr : Nat → Heap → V → Except Err Bytes
     | .arr id =>
       match getB h id with
       | .error e => .error e
-      | .ok b => match toStrL f h b.items with
+      | .ok b => match mapE b.items (fun kv => toStr f h kv.2) with
         | .error e => .error e
-        | .ok parts => .ok ([91] ++ joinBytes [44] (parts.map (·.2)) ++ [93])
+        | .ok parts => .ok ([91] ++ joinBytes [44] parts ++ [93])
     | .obj id =>
       match getB h id with
       | .error e => .error e
-      | .ok b => match toStrL f h b.items with
+      | .ok b => match mapE b.items (fun kv => (toStr f h kv.2).map fun s => kv.1 ++ [61] ++ s) with
         | .error e => .error e
-        | .ok parts => .ok ([123] ++ joinBytes [44] (parts.map fun kv => kv.1 ++ [61] ++ kv.2) ++ [125])
-/-- `operator String()` of every element: strings as they are, everything else through `toString()` -/
-def toStrL : Nat → Heap → List (Bytes × V) → Except Err (List (Bytes × Bytes))
-  | 0, _, _ => .error .fuel
-  | _ + 1, _, [] => .ok []
-  | f + 1, h, (k, x) :: rest =>
-    match toStr f h x with
+        | .ok parts => .ok ([123] ++ joinBytes [44] parts ++ [125])
+
+/-! ## the operations of a history (one C++ statement each), as run by the driver -/
+
+/-- a typed literal: the argument of a typed constructor / assignment / `operator<<` -/
+inductive Lit
+  | int (i : Int)        -- int
+  | uns (u : Nat)        -- unsigned
+  | long (i : Int)       -- Long
+  | dbl (d : Dy)         -- double
+  | flt (d : Dy)         -- float
+  | bool (b : Bool)
+  | str (s : Bytes)      -- const String& / const char*
+deriving DecidableEq, Repr, Inhabited
+
+/-- `Var(x)` for a typed literal -/
+def Lit.toV : Lit → V
+  | .int i => mkInt i
+  | .uns u => mkUnsigned u
+  | .long i => mkLong i
+  | .dbl d => mkDouble d
+  | .flt d => mkFloat d
+  | .bool b => mkBool b
+  | .str s => mkString s
+
+structure Path where
+  root : Nat
+  steps : List Step
+deriving DecidableEq, Repr, Inhabited
+
+inductive Op
+  | setLit (p : Path) (l : Lit)          -- `p = x;` typed `operator=` (for `Lit.str`: the String / const char* overload)
+  | setType (p : Path) (t : Nat)         -- `p = Var::ARRAY;` i.e. `*this = Var(t)`
+  | setV (p q : Path)                    -- `p = q;`
+  | app (p q : Path)                     -- `p << q;`
+  | appLit (p : Path) (l : Lit)          -- `p << x;` template: `*this << (Var)x`
+  | resize (p : Path) (n : Nat)
+  | removeAt (p : Path) (i n : Nat)
+  | removeKey (p : Path) (k : Bytes)
+  | clear (p : Path)
+  | extend (p q : Path)                  -- `p.extend(q);`
+  | clone (k : Nat) (q : Path)           -- root k = `new Var(q.clone())`, old root destroyed afterwards
+  | copy (k : Nat) (q : Path)            -- root k = `new Var(q)`
+  | drop (k : Nat)                       -- root k destroyed, `new Var`
+  | ctorLit (k : Nat) (l : Lit)          -- root k = `new Var(x)`
+  | ctorType (k : Nat) (t : Nat)         -- root k = `new Var(Var::Type)`
+  | ctorKV (k : Nat) (key : Bytes) (q : Path)   -- root k = `new Var(key, q)`
+deriving DecidableEq, Repr, Inhabited
+
+def slotV (σ : State) (k : Nat) : V := σ.slots.getD k V.none
+
+/-- value denoted by a const path -/
+def cget (σ : State) (p : Path) : Except Err V := resolveConst σ.heap (slotV σ p.root) p.steps
+
+/-- the Var denoted by a const path (`none` = the static `Var::none`) -/
+def cloc (σ : State) (p : Path) : Except Err (Option Loc) :=
+  (resolveConstLoc σ.heap (some (.slot p.root)) (slotV σ p.root) p.steps).map (·.1)
+
+/-- replace root variable `k` by `v` (which already owns its reference) and destroy the old root -/
+def replaceSlot (σ : State) (k : Nat) (v : V) : Except Err State :=
+  if k < σ.slots.length then
+    let old := slotV σ k
+    let σ1 : State := { σ with slots := σ.slots.set k v }
+    match drop σ1.heap [old] with
     | .error e => .error e
-    | .ok s => match toStrL f h rest with
-      | .error e => .error e
-      | .ok r => .ok ((k, s) :: r)
-end
+    | .ok h => .ok { σ1 with heap := h }
+  else .error .badarg
+
+/-- `*this = Var(t)`: a temporary, copy-assigned, then destroyed -/
+def assignType (σ : State) (t : Loc) (ty : Nat) : Except Err State := do
+  let (h1, tmp) ← mkType σ.heap ty
+  let σ2 ← assignV { σ with heap := h1 } t tmp
+  let h3 ← drop σ2.heap [tmp]
+  pure { σ2 with heap := h3 }
+
+/-- does any defined property value of `items` reach block `target`? -/
+def anyReaches (h : Heap) (target : Nat) (items : List (Bytes × V)) : Except Err Bool :=
+  anyE items (fun kv => if kv.2 = V.none then .ok false else reaches (travFuel h) h target kv.2)
+
+/-- the statement body once the target `t` is resolved; the guards (`cyclic`, `sharedGrowth`) are decided exactly as
+harness/c04.cpp decides them from the public API before it issues the call -/
+def opBody (guard : Bool) (σ : State) (t : Loc) : Op → Except Err State
+  | .setLit _ (.str s) => assignString σ t s
+  | .setLit _ l => assignScalar σ t l.toV
+  | .setType _ ty => assignType σ t ty
+  | .setV _ q => do
+    let src ← cget σ q
+    if (← wouldCycle σ.heap (parentOf t) src) then throw .cyclic
+    assignV σ t src
+  | .app _ q => do
+    let src ← cget σ q
+    let v ← readLoc σ t
+    match v with
+    | .arr id => if (← reaches (travFuel σ.heap) σ.heap id src) then throw .cyclic
+    | .none =>
+      if (← wouldCycle σ.heap (parentOf t) src) then throw .cyclic   -- the new array lives inside the parent
+      -- `v << v` on an undefined v: the argument is a reference to the Var that has just become the array
+      if (← cloc σ q) = some t then throw .cyclic
+    | _ => pure ()
+    appendAt guard σ t src
+  | .appLit _ l => appendAt guard σ t l.toV
+  | .resize _ n => resizeV guard σ t n
+  | .removeAt _ i n => removeAtV σ t i n
+  | .removeKey _ k => removeKeyV σ t k
+  | .clear _ => clearV σ t
+  | .extend _ q => do
+    let src ← cget σ q
+    let v ← readLoc σ t
+    match v, src with
+    | .obj id, .obj sid =>
+      let b ← getB σ.heap id
+      let sb ← getB σ.heap sid
+      if (← anyReaches σ.heap id sb.items) then throw .cyclic
+      if guard && decide (b.rc > 1) && decide (b.items.length + extendNewKeys b.items sb.items > b.cap) then
+        throw .sharedGrowth
+    | .none, .obj sid =>
+      match parentOf t with
+      | some pid =>
+        if pid = sid then throw .cyclic      -- the new object is a property of `src` itself
+        let sb ← getB σ.heap sid
+        if (← anyReaches σ.heap pid sb.items) then throw .cyclic   -- the new object lives inside the parent
+      | none => pure ()
+    | _, _ => pure ()
+    extendV guard σ t src
+  | _ => .error .badarg
+
+/-- one statement of a history.  The state is returned also when the statement is refused: the steps of the
+target path evaluated before the refusal have taken effect (in the C++ as well). -/
+def applyOp (guard : Bool) (σ : State) (op : Op) : State × Except Err Unit :=
+  let onTarget (p : Path) : State × Except Err Unit :=
+    if p.root < σ.slots.length then
+      match resolveMut guard σ (.slot p.root) p.steps with
+      | (σ1, .error e) => (σ1, .error e)
+      | (σ1, .ok t) =>
+        match opBody guard σ1 t op with
+        | .ok σ2 => (σ2, .ok ())
+        | .error e => (σ1, .error e)
+    else (σ, .error .badarg)
+  let onRoot (r : Except Err State) : State × Except Err Unit :=
+    match r with
+    | .ok σ1 => (σ1, .ok ())
+    | .error e => (σ, .error e)
+  match op with
+  | .setLit p _ => onTarget p
+  | .setType p _ => onTarget p
+  | .setV p _ => onTarget p
+  | .app p _ => onTarget p
+  | .appLit p _ => onTarget p
+  | .resize p _ => onTarget p
+  | .removeAt p _ _ => onTarget p
+  | .removeKey p _ => onTarget p
+  | .clear p => onTarget p
+  | .extend p _ => onTarget p
+  | .clone k q => onRoot (do
+      let src ← cget σ q
+      let (h1, c) ← cloneV (travFuel σ.heap) σ.heap src
+      replaceSlot { σ with heap := h1 } k c)
+  | .copy k q => onRoot (do
+      let src ← cget σ q
+      let h1 ← copyV σ.heap src
+      replaceSlot { σ with heap := h1 } k src)
+  | .drop k => onRoot (replaceSlot σ k V.none)
+  | .ctorLit k l => onRoot (replaceSlot σ k l.toV)
+  | .ctorType k ty => onRoot (do
+      let (h1, v) ← mkType σ.heap ty
+      replaceSlot { σ with heap := h1 } k v)
+  | .ctorKV k key q => onRoot (do
+      -- Var(const String& k, const Var& x): NEW_DIC; set(k, x)
+      let src ← cget σ q
+      let h1 ← copyV σ.heap src
+      let (h2, id) := allocB h1 { emptyBlock true with items := [(key, src)] }
+      replaceSlot { σ with heap := h2 } k (.obj id))
+
+/-- a whole history from a state -/
+def run (guard : Bool) : State → List Op → State
+  | σ, [] => σ
+  | σ, op :: rest => run guard (applyOp guard σ op).1 rest
+
+def initState (nslots : Nat) : State := { heap := [], slots := List.replicate nslots V.none }
 
 end AslModel.Var
